@@ -64,7 +64,9 @@ Probes4(t) ==
                  : j \in 1 .. Len(t.segs)})
   \cup {0, 65, 65535, 65536, 65601, 131071, MaxCode}
 
-Params4 == {[fam |-> "f4", L |-> L, p |-> p] : L \in Layouts4, p \in 0 .. 14}
+\* quick tier: five of the fifteen rotations (every option still occurs, not at every position)
+Pats4 == IF Deep THEN 0 .. 14 ELSE {0, 3, 6, 9, 12}
+Params4 == {[fam |-> "f4", L |-> L, p |-> p] : L \in Layouts4, p \in Pats4}
 
 ---------------------------------------------------------------------------
 \* Format 12.
@@ -143,7 +145,7 @@ Probes2(t) ==
                                             t.subs[SubIdx(t, b) + 1].first + t.subs[SubIdx(t, b) + 1].count,
                                             0, 255} : y >= 0 /\ y <= 255}}
               : b \in leads}
-Params2 == {[fam |-> "f2", L |-> <<s0, oth>>, p |-> p] : s0 \in S0_2, oth \in Others2, p \in 0 .. 3}
+Params2 == {[fam |-> "f2", L |-> <<s0, oth>>, p |-> p] : s0 \in S0_2, oth \in Others2, p \in (IF Deep THEN 0 .. 3 ELSE {0, 1})}
 
 ---------------------------------------------------------------------------
 \* Whole fonts, 1: every set of encoding records over ten platform/encoding pairs (two of them
@@ -225,7 +227,9 @@ SizeOf(t) ==
   CASE t.fmt = 4  -> LET n[j \in 0 .. Len(t.segs)] == IF j = 0 THEN 0 ELSE n[j - 1] + (t.segs[j].e - t.segs[j].s + 1) IN n[Len(t.segs)]
     [] t.fmt = 12 -> LET n[j \in 0 .. Len(t.groups)] == IF j = 0 THEN 0 ELSE n[j - 1] + (t.groups[j].e - t.groups[j].s + 1) IN n[Len(t.groups)]
     [] OTHER -> 0
-EnumWanted(q, t) == SizeOf(t) <= 600 \/ (q.p = 0 /\ Cardinality(q.L) <= 1)
+EnumWanted(q, t) == \/ SizeOf(t) <= 600
+                    \/ q.fam = "f12big"
+                    \/ (q.fam = "f4" /\ q.p = 0 /\ q.L \in {{<<0, 65534>>}, {<<32, 65535>>}})
 
 RecsOf(q) == IF q.fam = "pref" THEN PrefRecs(q.L) ELSE q.L.recs
 Os2Of(q)  == IF q.fam = "pref" THEN 32 ELSE q.L.os2
